@@ -491,7 +491,29 @@ class _K(object):
             cands.append(i)
         if not cands:
             return None
-        i = rng.choice(cands)
+        # prefer a later instance of a loop that was interrupted by a sibling loop of the same map position (X, Y, X):
+        # per-instance bookkeeping of the validator must not be fooled by the earlier X
+        special = []
+        for i in cands:
+            r = doc.recs[i]
+            if not r.chain:
+                continue
+            loop, inst = r.chain[-1]
+            parent_chain = r.chain[:-1]
+            seen_same = seen_other_after = False
+            for q in doc.recs[:i]:
+                if q.chain[:len(parent_chain)] != parent_chain or len(q.chain) <= len(parent_chain):
+                    continue
+                l2, i2 = q.chain[len(parent_chain)]
+                if l2 is loop and i2 != inst:
+                    seen_same = True
+                    seen_other_after = False
+                elif l2 is not loop and getattr(l2, 'pos', None) == loop.pos and seen_same:
+                    seen_other_after = True
+            if seen_same and seen_other_after:
+                special.append(i)
+        i = rng.choice(special) if (special and rng.random() < 0.75) else rng.choice(cands)
+        after_sibling = i in special
         d = clone(doc)
         node = d.recs[i].node
         del_chain = list(d.recs[i].chain)
@@ -506,7 +528,7 @@ class _K(object):
             hi += 1
             j += 1
         return Fault(doc=d, kind='missing_segment', level='seg', set_index=si, seg_pos=pos, seg_pos_max=hi, seg_id=node.id, ele_pos=None, codes=['3'], rec_index=i,
-                     node_path=node.path(), alters_matching=False)
+                     node_path=node.path(), alters_matching=False, note='later-instance-after-sibling' if after_sibling else None)
 
     @staticmethod
     def max_use(rng, doc):
